@@ -421,8 +421,25 @@ def rule_pending_ref_checked(ctx):
     if not news or not adds:
         ctx.unrecognised("PENDINGREF", key, f.where(), "ANIcreate no longer takes its reference from Htagnewref / adds the entry with ANIaddentry")
         return 0
-    if any(max(news) < l < min(adds) for l in finds):
-        ctx.holds("PENDINGREF", key, f.where(min(finds)), "the reference is looked up in the annotation tree before the entry is added", nontrivial=True)
+    # the look-up has to be repeated after every step: it is the condition of a loop, not of an `if`
+    in_loop = False
+    if f.raw.get("ast"):
+        from .facts import calls_in
+
+        def _vis(nd, st):
+            nonlocal in_loop
+            if nd[0] in ("while", "do", "for"):
+                conds = [nd[1]] if nd[0] == "while" else ([nd[2]] if nd[0] in ("do", "for") else [])
+                for c_ in conds:
+                    if c_ is not None and any(c[1] == "tbbtdfind" for c in calls_in(c_, True)):
+                        in_loop = True
+            return True
+
+        ast_walk(f.raw["ast"], _vis)
+    if any(max(news) < l < min(adds) for l in finds) and not in_loop:
+        ctx.violated("PENDINGREF", key, f.where(min(finds)), "the look-up of the reference in the annotation tree is made once, not repeated after the reference was stepped: the stepped reference may be held by another pending annotation, and the third ANcreate before a write fails")
+    elif any(max(news) < l < min(adds) for l in finds):
+        ctx.holds("PENDINGREF", key, f.where(min(finds)), "the reference is looked up in the annotation tree, in a loop, before the entry is added", nontrivial=True)
     else:
         ctx.violated("PENDINGREF", key, f.where(min(adds)), "the reference Htagnewref returned goes into the annotation tree without a look-up for annotations that hold it in memory only: "
                      "a second ANcreate of the same type before the first ANwriteann fails")
@@ -630,4 +647,45 @@ def rule_rewrite_reuses_element(ctx):
             else:
                 ctx.violated("REUSEOLD", key, f.where(line), "the release of the old element is conditioned on `%s`: an existing annotation can be overwritten in place and keep its old length" % render(g[1])[:80])
     ctx.floor("REUSEOLD", 2, n, "(routines that replace an existing annotation)")
+    return n
+
+
+def rule_append_at_walked_tail(ctx, files=("hdf/src/dfan.c", "hdf/src/mfan.c")):
+    """APPENDTAIL (C11): the DFAN directory of a file is a singly linked list of blocks of 16 entries.  A routine that needs a new block
+    walks to the last block (`for (p = head; p && p->next; p = p->next)`) and links the new block behind it.  The store that
+    links the freshly allocated node must go through the variable the walk advanced; linked behind the *head* instead, every
+    block between the head and the new one drops out of the list — from the third block on, annotations that are in the file
+    are no longer found and a rewrite adds a second annotation instead of replacing the first."""
+    from .codec import ast_walk
+    from .facts import base_var
+    prog = ctx.prog
+    n = 0
+    for f in prog.lib_funcs():
+        if not f.rel.endswith(tuple(files)) or not f.raw.get("ast"):
+            continue
+        # walk variables: `v = v->next` in a for-increment or loop body
+        walkers = set()
+        for _b, _i, _s, x in f.nodes(True):
+            if x[0] == "asg" and x[1] == "=" and kind(strip(x[2])) == "var":
+                r = strip(x[3])
+                if kind(r) == "mem" and r[2] == "next" and base_var(r) == strip(x[2])[1]:
+                    walkers.add(strip(x[2])[1])
+        fresh = set()
+        for _b, _i, _s, x in f.nodes(True):
+            if x[0] == "asg" and x[1] == "=" and kind(strip(x[2])) == "var" and kind(strip(x[3])) == "call" and strip(x[3])[1] in ("malloc", "calloc"):
+                fresh.add(strip(x[2])[1])
+        if not walkers or not fresh:
+            continue
+        k = 0
+        for _b, _i, s, x in f.nodes(True):
+            if x[0] == "asg" and x[1] == "=" and kind(strip(x[2])) == "mem" and strip(x[2])[2] == "next" and kind(strip(x[3])) == "var" and strip(x[3])[1] in fresh:
+                k += 1
+                n += 1
+                key = "APPENDTAIL:%s#%d" % (f.name, k)
+                tgt = strip(strip(x[2])[1])
+                if kind(tgt) == "var" and tgt[1] in walkers:
+                    ctx.holds("APPENDTAIL", key, f.where(s.get("l", f.line)), "the new node is linked behind `%s`, the variable the walk to the tail advanced" % tgt[1], nontrivial=True)
+                else:
+                    ctx.violated("APPENDTAIL", key, f.where(s.get("l", f.line)), "the new node is linked with `%s`, not through the variable that walked to the tail (%s): the blocks between are cut out of the list" % (render(x)[:50], ", ".join(sorted(walkers))))
+    ctx.floor("APPENDTAIL", 1, n, "(appends of a fresh node to a walked list)")
     return n
